@@ -398,7 +398,11 @@ def r6_inverse_map(m):
             return occurrences(e.value)
         return False
     iter_ok = len(loops) == 1 and occurrences(loops[0].iter)
-    bounded = bool(reps) and all(len(c.args) >= 3 and A.const(c.args[2]) == 1 for c in reps)
+    def count_arg(c):
+        # `line.replace(a, b, 1)` or the unbound form `str.replace(line, a, b, 1)`
+        args = c.args[1:] if (isinstance(c.func.value, ast.Name) and c.func.value.id == "str") else c.args
+        return A.const(args[2]) if len(args) >= 3 else None
+    bounded = bool(reps) and all(count_arg(c) == 1 for c in reps)
     # prefix property of the key formats (a key without terminator is a prefix of the key with a longer index)
     srm = m.need_func("fparser.common.splitline", "string_replace_map")
     fmts = [n.func.value.value for n in A.calls(srm.node) if isinstance(n.func, ast.Attribute) and n.func.attr == "format"
